@@ -3,6 +3,7 @@ import GormModel.Model.Scan
 open Lean
 namespace Gorm.Drv
 open Gorm.Scan
+namespace HC03
 
 /-! JSON codec for the C03 ops.  Integers travel as decimal strings (64-bit values do not survive a float64
     JSON decoder), byte strings as arrays of numbers. -/
@@ -117,6 +118,8 @@ def resJ : R → Json
 def intListJ (l : List Int) : Json := Json.arr (l.map (fun n => Json.num (JsonNumber.fromInt n))).toArray
 def parseIntList (j : Json) : Option (List Int) := do (← jArr? j).toList.mapM jInt?
 
+end HC03
+open HC03 in
 def handleC03 (op : String) (args : Array Json) : Option Json := do
   match op with
   | "c03.set" =>
